@@ -1,6 +1,7 @@
 package main
 
 import (
+	"errors"
 	"fmt"
 	"math/rand"
 	"strings"
@@ -8,7 +9,10 @@ import (
 	"sync/atomic"
 	"time"
 
+	"context"
+
 	"github.com/failsafe-go/failsafe-go"
+	"github.com/failsafe-go/failsafe-go/bulkhead"
 	"github.com/failsafe-go/failsafe-go/circuitbreaker"
 	"github.com/failsafe-go/failsafe-go/ratelimiter"
 )
@@ -24,6 +28,7 @@ import (
 //
 // breaker ops: try rs rf open close halfopen ; limiter ops: a<k>m<maxWait|-1> (reserve) , y<k> (try acquire)
 type linzSlice struct {
+	bh   bulkhead.Bulkhead[any]
 	kind string
 	cb   circuitbreaker.CircuitBreaker[any]
 	rl   ratelimiter.RateLimiter[any]
@@ -32,7 +37,11 @@ type linzSlice struct {
 
 func init() {
 	slices["linz"] = func() slice { return &linzSlice{} }
-	generators["linz"] = genLinz
+	generators["linz"] = func(r *rand.Rand, n int, tier string, emit func(string) string) { genLinzKinds(r, n, tier, emit, nil) }
+	// the bulkhead-only stream (C06)
+	generators["linzbh"] = func(r *rand.Rand, n int, tier string, emit func(string) string) {
+		genLinzKinds(r, n, tier, emit, []string{"bulkhead"})
+	}
 }
 
 func (s *linzSlice) reset() { s.cb, s.rl = nil, nil }
@@ -97,6 +106,12 @@ func (s *linzSlice) exec(t []string) string {
 			s.now.Store(t0)
 			circuitbreaker.VerifSetClock(b, func() int64 { return s.now.Load() })
 			s.cb = b.Build()
+		case "bulkhead":
+			b := bulkhead.Builder[any](uint(atoi(t[2])))
+			if mw := atoi(t[3]); mw > 0 {
+				b.WithMaxWaitTime(time.Duration(mw) * time.Microsecond)
+			}
+			s.bh = b.Build()
 		case "smooth":
 			s.rl = ratelimiter.SmoothBuilderWithMaxRate[any](time.Duration(atoi(t[2]))).Build()
 			s.now.Store(0)
@@ -111,6 +126,16 @@ func (s *linzSlice) exec(t []string) string {
 		s.now.Add(atoi(t[1]))
 		return ""
 	case "probe":
+		if s.kind == "bulkhead" {
+			free := 0
+			for s.bh.TryAcquirePermit() {
+				free++
+			}
+			for i := 0; i < free; i++ {
+				s.bh.ReleasePermit()
+			}
+			return fmt.Sprintf("free=%d", free)
+		}
 		if s.kind != "breaker" {
 			return "-"
 		}
@@ -128,6 +153,10 @@ func (s *linzSlice) exec(t []string) string {
 			go func(ti int, ops []string) {
 				defer wg.Done()
 				<-start
+				if s.kind == "bulkhead" {
+					s.bulkheadThread(ti, ops, &stamp, func(l string) { mu.Lock(); out = append(out, l); mu.Unlock() })
+					return
+				}
 				for _, op := range ops {
 					c := stamp.Add(1)
 					res := s.one(op)
@@ -145,16 +174,85 @@ func (s *linzSlice) exec(t []string) string {
 	return "bad-op"
 }
 
+// bulkheadThread: standalone calls and executions through the bulkhead as a policy, recorded as acquire / release operations.
+// t = TryAcquirePermit, w<us> = AcquirePermitWithMaxWait, r = ReleasePermit (n when the thread holds none),
+// x<us> = an execution through the policy whose function runs for <us>: its admission is recorded as an acquire operation
+// (call … function entry, or … return when rejected) and its completion as a release (function exit … return).
+func (s *linzSlice) bulkheadThread(ti int, ops []string, stamp *atomic.Int64, emit func(string)) {
+	holding := 0
+	rec := func(c, r int64, op, res string) { emit(fmt.Sprintf("%d:%d:%d:%s:%s", ti, c, r, op, res)) }
+	for _, op := range ops {
+		switch op[0] {
+		case 't':
+			c := stamp.Add(1)
+			ok := s.bh.TryAcquirePermit()
+			r := stamp.Add(1)
+			if ok {
+				holding++
+			}
+			rec(c, r, "t", map[bool]string{true: "T", false: "F"}[ok])
+		case 'w':
+			c := stamp.Add(1)
+			err := s.bh.AcquirePermitWithMaxWait(context.Background(), time.Duration(atoi(op[1:]))*time.Microsecond)
+			r := stamp.Add(1)
+			if err == nil {
+				holding++
+			}
+			rec(c, r, "w", map[bool]string{true: "T", false: "F"}[err == nil])
+		case 'r':
+			c := stamp.Add(1)
+			if holding > 0 {
+				s.bh.ReleasePermit()
+				holding--
+				rec(c, stamp.Add(1), "r", "-")
+			} else {
+				rec(c, stamp.Add(1), "n", "-")
+			}
+		case 'x', 'X': // X: the function fails
+			d := time.Duration(atoi(op[1:])) * time.Microsecond
+			fails := op[0] == 'X'
+			c := stamp.Add(1)
+			var enter, exit int64
+			err := failsafe.NewExecutor[any](s.bh).Run(func() error {
+				enter = stamp.Add(1)
+				time.Sleep(d)
+				exit = stamp.Add(1)
+				if fails {
+					return errors.New("x")
+				}
+				return nil
+			})
+			r := stamp.Add(1)
+			if enter == 0 {
+				_ = err
+				rec(c, r, "w", "F")
+			} else {
+				rec(c, enter, "w", "T")
+				rec(exit, r, "r", "-")
+			}
+		}
+	}
+	for holding > 0 { // leave nothing behind: recorded as releases
+		c := stamp.Add(1)
+		s.bh.ReleasePermit()
+		holding--
+		rec(c, stamp.Add(1), "r", "-")
+	}
+}
+
 var _ = failsafe.ErrExecutionCanceled
 
-func genLinz(r *rand.Rand, n int, tier string, emit func(string) string) {
+func genLinzKinds(r *rand.Rand, n int, tier string, emit func(string) string, kinds []string) {
+	if kinds == nil {
+		kinds = []string{"breaker", "breaker", "smooth", "bursty", "bulkhead"}
+	}
 	rounds := 12
 	if tier == "thorough" {
 		rounds = 40
 	}
 	for c := 0; c < n; c++ {
 		emit(fmt.Sprintf("case linz-%d", c))
-		kind := pick(r, "breaker", "breaker", "smooth", "bursty")
+		kind := pick(r, kinds...)
 		var ops []string
 		var delay int64
 		switch kind {
@@ -169,6 +267,9 @@ func genLinz(r *rand.Rand, n int, tier string, emit func(string) string) {
 			delay = int64(r.Intn(100))
 			emit(fmt.Sprintf("linz cfg breaker %d 0 %d 0 0 %d %d %d -1 %d", ft, ftc, st, stc, delay, r.Intn(1000)))
 			ops = []string{"try", "try", "rs", "rf", "rf", "rs", "open", "close", "halfopen"}
+		case "bulkhead":
+			emit(fmt.Sprintf("linz cfg bulkhead %d %d", 1+r.Intn(3), pick(r, 0, 0, 150)))
+			ops = []string{"t", "t", "r", "r", "w100", "w0", "x50", "x150", "x0", "X50", "X0"}
 		case "smooth":
 			emit(fmt.Sprintf("linz cfg smooth %d", pick(r, 1, 10, 100, 1000)))
 			ops = []string{"a1m-1", "a1m0", "a2m150", "y1", "y1", "y2", "a3m-1", "a1m5"}
@@ -188,7 +289,9 @@ func genLinz(r *rand.Rand, n int, tier string, emit func(string) string) {
 				ths = append(ths, strings.Join(os, ","))
 			}
 			emit("linz round " + strings.Join(ths, ";"))
-			if kind == "breaker" {
+			if kind == "bulkhead" {
+				emit("linz probe")
+			} else if kind == "breaker" {
 				emit("linz probe")
 				emit(fmt.Sprintf("linz adv %d", pick(r, 0, 1, delay, delay+1, int64(r.Intn(150)))))
 			} else {
